@@ -443,6 +443,28 @@ def campaign(ctx, njobs, hostile=True, rng=None):
             sessions[h.name] = (text, blocks)
             dec_scripts.append((h.name, text))
     model = run_model(ctx, "dec", dec_scripts)
+    # encx stream: the model's full encoder (search, coefficient state across packets) on the frames written, every packet
+    enc_scripts = []
+    for j in jobs:
+        if j.name in views:
+            per = FPB * j.ch
+            L = ["cfg bits=%d ch=%d" % (j.bits, j.ch)] + ["frames %s" % K.hex_items(j.vals[a:a + per], 8) for a in range(0, len(j.vals), per)]
+            enc_scripts.append((j.name, "\n".join(L) + "\n"))
+    encx = run_model(ctx, "enc", enc_scripts)
+    for j in jobs:
+        if j.name not in views:
+            continue
+        pk = views[j.name].packet_bytes()
+        ml = encx.get(j.name, [])
+        stats["encx_packets_compared"] += len(pk)
+        stats["encx_bytes_compared"] += sum(map(len, pk))
+        for k, p in enumerate(pk):
+            m = ml[k] if k < len(ml) else ""
+            if m != p.hex():
+                d = first_diff(m, p.hex(), 2)
+                probs.append(Problem(j, "corr", "encx", "packet %d of %d: the model's encoder (alac_encode with its search) and the implementation differ from byte %d (lengths %d / %d)"
+                                     % (k, len(pk), d, len(m) // 2, len(p)), hs[j.name], p.hex()[2 * d:2 * d + 40], m[2 * d:2 * d + 40]))
+                break
     enc_out = ctx.run_model(["alaccore", "enc-escape"], "\n".join(enc_lines) + "\n").split("\n") if enc_lines else []
 
     def compare(name, job, il, iinfo, ir, script, kind):
